@@ -341,6 +341,10 @@ def build_replay():
         for prof in ([], ['--release']):
             p = subprocess.run(['cargo', 'build', '--offline', '-q'] + prof, cwd=REPLAY_DIR, env=env, stdout=subprocess.PIPE, stderr=subprocess.STDOUT, text=True)
             if p.returncode != 0:
+                # kernels that reach into private state through guarded hooks are optional: a source change that breaks only them
+                # must not take every replay with it
+                p = subprocess.run(['cargo', 'build', '--offline', '-q', '--no-default-features'] + prof, cwd=REPLAY_DIR, env=env, stdout=subprocess.PIPE, stderr=subprocess.STDOUT, text=True)
+            if p.returncode != 0:
                 raise RuntimeError('replay crate failed to build against /repo:\n' + p.stdout[-2000:])
     finally:
         fcntl.flock(lock, fcntl.LOCK_UN)
@@ -363,7 +367,10 @@ def replay_call(kernel, args, profile='debug', timeout=6):
             return {'timeout': True, 'note': 'aborted: memory limit reached (runaway allocation) ' + ' | '.join(msg[:2])[:200]}
         return {'panic': ' | '.join(msg[:3])[:400]}
     try:
-        return {'ok': json.loads(p.stdout)}
+        r = json.loads(p.stdout)
+        if isinstance(r, dict) and r.get('hooks_unavailable'):
+            return {'unavailable': 'this kernel needs the guarded hooks, which do not compile on the current tree'}
+        return {'ok': r}
     except Exception:
         return {'panic': 'unparseable replay output: ' + p.stdout[:200]}
 
@@ -432,6 +439,9 @@ def fold_results(v, results, judges, pid):
                 if rep and need_replay and judge:
                     outs = {prof: replay_call(rep['kernel'], rep['args'], prof) for prof in ('debug', 'release')}
                     v.traces += 2
+                    if any('unavailable' in x for x in outs.values()):
+                        v.undecided.append({'unit': r['name'], 'obligation': o['name'], 'why': 'violation candidate cannot be replayed: ' + str(next(x['unavailable'] for x in outs.values() if 'unavailable' in x))})
+                        continue
                     try:
                         verdicts = {prof: judge(o, rep, outs[prof]) for prof in outs}
                     except Exception as e:
